@@ -32,9 +32,12 @@ S = {
     "BC": "/* block note */",
     # comments whose text is empty or blank: they are still comment items of the flat result
     "EC": "CREATE TABLE t3 (d int); --",
+    # statements that are legitimately repeated verbatim in migration scripts
+    "SCI": "CREATE SCHEMA IF NOT EXISTS s8;",
+    "TI": "CREATE TABLE IF NOT EXISTS t4 (e int);",
     "BB": "/* block\n\n   end */",
 }
-BUCKET = {"T": "tables", "T2": "tables", "TC": "tables", "EC": "tables", "TY": "types", "SQ": "sequences", "DM": "domains", "SC": "schemas",
+BUCKET = {"T": "tables", "T2": "tables", "TC": "tables", "EC": "tables", "TI": "tables", "SCI": "schemas", "TY": "types", "SQ": "sequences", "DM": "domains", "SC": "schemas",
           "DB": "databases", "TS": "tablespaces", "SET": "ddl_properties"}
 MARK = {"tables": "table_name", "types": "type_name", "sequences": "sequence_name", "domains": "domain_name",
         "schemas": "schema_name", "databases": "database_name", "tablespaces": "tablespace_name", "ddl_properties": "value"}
